@@ -1182,9 +1182,6 @@ func (s *Sim) endOfRun() {
 	ar := NewRng(uint64(s.N.Height)*7919 + uint64(len(s.Packets)))
 	if hasAudit(s.Prof, "queries") {
 		s.auditQueries(ar)
-		if uint64(s.N.Height)%3 == 0 {
-			s.auditQueriesAfterGenesisRestart(ar)
-		}
 	}
 	if hasAudit(s.Prof, "pausequeries") {
 		s.auditPauseQueries(ar)
@@ -1197,6 +1194,9 @@ func (s *Sim) endOfRun() {
 	}
 	if hasAudit(s.Prof, "ids") {
 		s.auditIDs(ar)
+	}
+	if (hasAudit(s.Prof, "queries") || hasAudit(s.Prof, "pausequeries") || s.Prof.Name == "C12") && uint64(s.N.Height)%3 == 0 && len(s.Viol) == 0 {
+		s.auditAfterGenesisRestart(ar)
 	}
 	// exactly one outgoing bridge message per successful CCTP/Hyperlane packet
 	for _, p := range s.sortedPackets() {
